@@ -73,6 +73,18 @@ def gen(src, consts):
             raise ExtractError('stop_consuming: shape changed: %r' % shape)
     else:
         raise ExtractError('stop_consuming: shape changed: %r' % shape)
+    # ---- Connection.check_for_errors: CLOSED is set before the re-entrant close() ---------------------
+    cfe = [ast.unparse(st) for st in strip_doc(src.func('connection.py', 'Connection', 'check_for_errors').body) if not is_logging(st)]
+    tail = [t for t in cfe if not t.startswith('if ')]
+    if tail == ['self.set_state(self.CLOSED)', 'self.close()', 'raise self.exceptions[0]']:
+        sets_closed = True
+    elif tail == ['self.close()', 'raise self.exceptions[0]']:
+        sets_closed = False
+    else:
+        raise ExtractError('Connection.check_for_errors: tail changed: %r' % tail)
+    # ---- Basic.consume: how the callback is bound to the tag --------------------------------------------
+    overwrites = any(isinstance(n, ast.Assign) and ast.unparse(n.targets[0]) == 'self._channel._consumer_callbacks[tag]'
+                     and ast.unparse(n.value) == 'callback' for n in ast.walk(src.func('basic.py', 'Basic', 'consume')))
     # ---- Channel.process_data_events: dispatch by tag --------------------------------------------------
     pd = src.func('channel.py', 'Channel', 'process_data_events')
     waits = False
@@ -139,8 +151,12 @@ def gen(src, consts):
             'def closeWaitJudgedByConnection : Bool := %s\n'
             '/-- a delivery whose tag has no callback yet waits for the channel lock (held by consume() until the callback is stored) -/\n'
             'def dispatchWaitsForLock : Bool := %s\n'
+            '/-- consume() binds the callback by plain assignment: a later consumer with the same tag replaces the earlier binding -/\n'
+            'def consumeStoreOverwrites : Bool := %s\n'
+            '/-- Connection.check_for_errors marks the connection CLOSED before it calls close() (so that the re-entrant close sends nothing and does not wait) -/\n'
+            'def checkSetsClosedBeforeClose : Bool := %s\n'
             'end Amqp.Gen.Close\n' % (str(locked).lower(), str(copy).lower(), str(repeats).lower(), str(backs_off).lower(), str(sent_even_if_cancel_fails).lower(),
-                                      str(judged_by_connection).lower(), str(waits).lower()))
+                                      str(judged_by_connection).lower(), str(waits).lower(), str(overwrites).lower(), str(sets_closed).lower()))
 
 
 FILES = {'Close.lean': gen}
